@@ -23,11 +23,12 @@ pub fn gens(cx: &Cx) -> Vec<Gen> {
         Gen { name: "bigfrag", count: 21, exhaustive: true },
         Gen { name: "maxreuse", count: 48, exhaustive: true },
         Gen { name: "samectx", count: 64, exhaustive: true },
+        Gen { name: "labelcfg", count: 96, exhaustive: true },
         Gen { name: "statefulcrc", count: cx.n(3_000, 200_000), exhaustive: false },
     ]
 }
 
-pub const RULE: &str = "lattice: every (PDU size, buffer size) pair of the size lattice L x L (L = 0..16, 25..27, 100, 255..257, 1000, 4080..4100, 8190..8195, 16384, 32767, 32768, 65520..65540, 69999, 70000) x 6 label cases (6-byte, 3-byte, broadcast, explicit re-use, 6-byte primed, 3-byte primed) for the first call, then up to 20 continuation calls with buffers drawn from L, 0..32 and exact-fit sizes; fragpos: encap_frag on every context position 0..=len+2 of PDUs of 0..=64 bytes x every buffer size 0..=40 and {100,4097,4098,70000}, and boundary positions of lattice-sized PDUs x L; ptypes: protocol types (all 65536 in thorough) x labels incl. zero and explicit re-use; ext: seeded extension chains of 0..4 entries incl. illegal combinations, fragmented on; state: seeded configuration + traffic prefix then a random call (atomicity over prior states); runs: whole PDUs driven to completion under constant-7, constant-8 and random >=7 byte schedules; maxreuse: re-use limits 1,2,3,254,255,0 x N+1 or 600 packets with one label (encap and encap_ext), then PDUs at the 16-bit total-length boundary for an empty and a full label; samectx: one hand-built context and buffer length offered for PDUs of 23 different lengths in a row (an answer must not depend on the previous question); statefulcrc: an encapsulator with a CRC calculator that counts its calls and salts its result: after each refused call (every reason the property names) the encapsulator incl. its calculator is unchanged and the next fragmenting call equals that of a twin that never saw the refused call; bigfrag: continuation calls with 4080..=4100 bytes remaining x buffers {4090,4096..4101,5000,8000,65536,70000} at four context positions. Every call is one evaluation; a call is non-trivial when the oracle of this property had something to judge (see per-property note); fingerprint = hash(function, PDU length, buffer length, label case, context position, outcome class).";
+pub const RULE: &str = "lattice: every (PDU size, buffer size) pair of the size lattice L x L (L = 0..16, 25..27, 100, 255..257, 1000, 4080..4100, 8190..8195, 16384, 32767, 32768, 65520..65540, 69999, 70000) x 6 label cases (6-byte, 3-byte, broadcast, explicit re-use, 6-byte primed, 3-byte primed) for the first call, then up to 20 continuation calls with buffers drawn from L, 0..32 and exact-fit sizes; fragpos: encap_frag on every context position 0..=len+2 of PDUs of 0..=64 bytes x every buffer size 0..=40 and {100,4097,4098,70000}, and boundary positions of lattice-sized PDUs x L; ptypes: protocol types (all 65536 in thorough) x labels incl. zero and explicit re-use; ext: seeded extension chains of 0..4 entries incl. illegal combinations, fragmented on; state: seeded configuration + traffic prefix then a random call (atomicity over prior states); runs: whole PDUs driven to completion under constant-7, constant-8 and random >=7 byte schedules; maxreuse: re-use limits 1,2,3,254,255,0 x N+1 or 600 packets with one label (encap and encap_ext), then PDUs at the 16-bit total-length boundary for an empty and a full label; labelcfg: scripted label-memory situations (label sent then re-use disabled / re-enabled with a limit; a run of explicit re-use labels under a limit; a run that exhausts the limit, another label, the first label again) x label kinds x limits 1/2/3/255 x encap / encap_ext, each followed by fitting / fragmenting / failing calls with the same label and with an explicit re-use label; samectx: one hand-built context and buffer length offered for PDUs of 23 different lengths in a row (an answer must not depend on the previous question); statefulcrc: an encapsulator with a CRC calculator that counts its calls and salts its result: after each refused call (every reason the property names) the encapsulator incl. its calculator is unchanged and the next fragmenting call equals that of a twin that never saw the refused call; bigfrag: continuation calls with 4080..=4100 bytes remaining x buffers {4090,4096..4101,5000,8000,65536,70000} at four context positions. Every call is one evaluation; a call is non-trivial when the oracle of this property had something to judge (see per-property note); fingerprint = hash(function, PDU length, buffer length, label case, context position, outcome class).";
 
 fn fp(func: Func, plen: usize, blen: usize, lk: &str, pos: usize, outc: u64) -> u64 {
     mix(mix(mix(func as u64 + 1, plen as u64), mix(blen as u64, fnv(lk.as_bytes()))), mix(pos as u64, outc))
@@ -435,6 +436,57 @@ pub fn run_key(cx: &Cx, mask: u32, gen: &str, key: u64, rep: &mut Report) {
             rep.count_n("runs.calls", calls as u64);
             if key < 2 {
                 rep.sample(|| format!("runs: pdu {}B, first buffer {}B, schedule mode {} -> completed after {} continuation calls (bound {})", plen, first, mode, calls, remaining0 + 1));
+            }
+        }
+        "labelcfg" => {
+            // scripted label-memory situations, each followed by calls that fit / fragment / fail, all monitored:
+            //  0: L sent with re-use on, re-use disabled, L again        1: L sent, re-use re-enabled with a limit, L again
+            //  2: limit N, L sent, then N+2 calls with an EXPLICIT re-use label   3: limit N, L sent N+2 times, other label, L
+            let script = key % 4;
+            let label = gen_label(&mut rng, [0usize, 2, 3][((key / 4) % 3) as usize]);
+            let other = gen_label(&mut rng, 1);
+            let n_max = [1u8, 2, 3, 255][((key / 12) % 4) as usize];
+            let use_ext = (key / 48) % 2 == 1;
+            let chain = gen_chain(&mut rng, 1, false);
+            let mut s = Sender::new(0x77);
+            let small = gen_pdu(&mut rng, 12, 0);
+            let big = gen_pdu(&mut rng, 300, 1);
+            let mut send = |s: &mut Sender, l: Label, pdu: &[u8], bl: usize, rep: &mut Report| {
+                let spec = CallSpec { func: if use_ext { Func::EncapExt } else { Func::Encap }, pdu, frag_id: 3, ptype: 0x0800, label: l, exts: if use_ext { Some(&chain) } else { None }, ctx: None, buf_len: bl };
+                let o = s.call(&spec, mask, rep, &replay);
+                note(rep, mask, &spec, &o);
+            };
+            match script {
+                0 => {
+                    send(&mut s, label, &small, 64, rep);
+                    s.enc.disable_re_use_label();
+                }
+                1 => {
+                    send(&mut s, label, &small, 64, rep);
+                    s.enc.enable_re_use_label_with_max_consecutive(n_max);
+                }
+                2 => {
+                    s.enc.enable_re_use_label_with_max_consecutive(n_max);
+                    send(&mut s, label, &small, 64, rep);
+                    for _ in 0..(n_max as usize).min(6) + 2 {
+                        send(&mut s, Label::ReUse, &small, 64, rep);
+                    }
+                }
+                _ => {
+                    s.enc.enable_re_use_label_with_max_consecutive(n_max);
+                    for _ in 0..(n_max as usize).min(6) + 2 {
+                        send(&mut s, label, &small, 64, rep);
+                    }
+                    send(&mut s, other, &small, 64, rep);
+                }
+            }
+            // the calls under test: same label, fitting / fragmenting / too small / explicit re-use
+            for (pdu, bl) in [(&small, 64usize), (&big, 40), (&small, 3), (&big, 4097)] {
+                let mut s2 = Sender::new(0x78);
+                s2.enc = s.enc.clone();
+                send(&mut s2, label, pdu, bl, rep);
+                send(&mut s2, label, pdu, bl, rep);
+                send(&mut s2, Label::ReUse, pdu, bl, rep);
             }
         }
         "samectx" => {
